@@ -34,11 +34,15 @@ def main():
     meta = {"id": sid, "property": prop, "confirmed": False, "steps": {}}
     try:
         demo = open(f"{src}/demo.txt").read()
-        m = re.search(r"^\s*(go (?:test|run) .*)$", demo, re.M)
+        m = re.search(r"(go (?:test|run) [^\n]*)", demo)
         if not m:
             raise SystemExit("no go test line in demo.txt")
-        cmd = m.group(1).strip()
-        pkg = cmd.split()[-1]
+        cmd = m.group(1).strip().rstrip("`")
+        toks = [t.strip("'\"`") for t in cmd.split()]
+        pk = [t for t in toks[2:] if t == "." or t.startswith("./")]
+        if not pk:
+            raise SystemExit("no package argument in demo command")
+        pkg = pk[0]
         demofiles = [f for f in os.listdir(src) if f.endswith("_test.go") or (f.endswith(".go") and f != "patch.diff")]
         if not demofiles:
             raise SystemExit("no demo file")
